@@ -233,7 +233,7 @@ def run_world(case):
                 raise W.ScriptEnd()
             cur['i'] += 1
             sc = scs[cur['i']]
-            wld = W.World(sc)
+            wld = W.World(sc, cur['world'].clock.t + 3.0 if cur['i'] > 0 else 1000.0)       # the clock goes on across reconnects
             wld.canon_write = W._canon_write_factory(wld)
             cur['sc'], cur['world'], cur['evidx'] = sc, wld, 0
             plog.append(kwtok(a, kw))
